@@ -1,3 +1,181 @@
-pub fn main(_args: &[String]) {
-    unimplemented!()
+//! `replayer bytes <what> <arg>`: byte-level entry points of the real crates on concrete inputs.
+//!   attr-decode <hex>            Attributes::from_reader on the bytes (one-shot reader)
+//!   attr-decode-choppy <hex> <schedule json>   same through a reader that follows a short-read / Interrupted schedule
+//!   attr-roundtrip <json>        build the map from bit patterns, to_writer, from_reader; prints bytes and decoded values
+//!   binary-decode <hex>          rbx_binary::from_reader
+use std::io::Read;
+
+use rbx_types::*;
+use serde_json::{json, Value};
+
+fn unhex(s: &str) -> Vec<u8> {
+    (0..s.len() / 2).map(|i| u8::from_str_radix(&s[2 * i..2 * i + 2], 16).unwrap()).collect()
+}
+
+fn hex(b: &[u8]) -> String {
+    b.iter().map(|x| format!("{:02x}", x)).collect()
+}
+
+fn f(v: &Value) -> f32 {
+    f32::from_bits(v.as_u64().unwrap() as u32)
+}
+
+fn bytes(v: &Value) -> Vec<u8> {
+    v.as_array().unwrap().iter().map(|x| x.as_u64().unwrap() as u8).collect()
+}
+
+fn string(v: &Value) -> String {
+    String::from_utf8(bytes(v)).expect("utf8 name")
+}
+
+fn v3(a: &[Value]) -> Vector3 {
+    Vector3::new(f(&a[0]), f(&a[1]), f(&a[2]))
+}
+
+/// {"kind": K, "v": ...} with floats as bit patterns and strings as byte arrays
+fn build(kind: &str, v: &Value) -> Variant {
+    let a = v.as_array().cloned().unwrap_or_default();
+    match kind {
+        "BinaryString" => Variant::BinaryString(BinaryString::from(bytes(v))),
+        "String" => Variant::String(string(v)),
+        "Bool" => Variant::Bool(v.as_bool().unwrap()),
+        "Int32" => Variant::Int32(v.as_i64().unwrap() as i32),
+        "Float32" => Variant::Float32(f(v)),
+        "Float64" => Variant::Float64(f64::from_bits(v.as_u64().unwrap())),
+        "UDim" => Variant::UDim(UDim::new(f(&a[0]), a[1].as_i64().unwrap() as i32)),
+        "UDim2" => Variant::UDim2(UDim2::new(
+            UDim::new(f(&a[0]), a[1].as_i64().unwrap() as i32),
+            UDim::new(f(&a[2]), a[3].as_i64().unwrap() as i32),
+        )),
+        "BrickColor" => Variant::BrickColor(BrickColor::from_number(v.as_u64().unwrap() as u16).expect("brick color number")),
+        "Color3" => Variant::Color3(Color3::new(f(&a[0]), f(&a[1]), f(&a[2]))),
+        "Vector2" => Variant::Vector2(Vector2::new(f(&a[0]), f(&a[1]))),
+        "Vector3" => Variant::Vector3(v3(&a)),
+        "NumberRange" => Variant::NumberRange(NumberRange::new(f(&a[0]), f(&a[1]))),
+        "Rect" => Variant::Rect(Rect::new(Vector2::new(f(&a[0]), f(&a[1])), Vector2::new(f(&a[2]), f(&a[3])))),
+        "CFrame" => Variant::CFrame(CFrame::new(v3(&a[0..3]), Matrix3::new(v3(&a[3..6]), v3(&a[6..9]), v3(&a[9..12])))),
+        "EnumItem" => Variant::EnumItem(EnumItem { ty: string(&a[0]), value: a[1].as_u64().unwrap() as u32 }),
+        "NumberSequence" => Variant::NumberSequence(NumberSequence {
+            keypoints: a.iter().map(|k| NumberSequenceKeypoint::new(f(&k[0]), f(&k[1]), f(&k[2]))).collect(),
+        }),
+        "ColorSequence" => Variant::ColorSequence(ColorSequence {
+            keypoints: a.iter().map(|k| ColorSequenceKeypoint::new(f(&k[0]), Color3::new(f(&k[1]), f(&k[2]), f(&k[3])))).collect(),
+        }),
+        "Font" => Variant::Font(Font {
+            family: string(&a[2]),
+            weight: FontWeight::from_u16(a[0].as_u64().unwrap() as u16).unwrap(),
+            style: FontStyle::from_u8(a[1].as_u64().unwrap() as u8).unwrap(),
+            cached_face_id: if a[3].is_null() { None } else { Some(string(&a[3])) },
+        }),
+        other => panic!("replayer: unsupported attribute kind {}", other),
+    }
+}
+
+fn fb(x: f32) -> Value {
+    json!(x.to_bits())
+}
+
+/// bit-exact view of a decoded value
+fn view(v: &Variant) -> Value {
+    match v {
+        Variant::BinaryString(b) => json!({"BinaryString": AsRef::<[u8]>::as_ref(b).to_vec()}),
+        Variant::String(s) => json!({"String": s.as_bytes().to_vec()}),
+        Variant::Bool(b) => json!({ "Bool": b }),
+        Variant::Int32(n) => json!({ "Int32": n }),
+        Variant::Float32(x) => json!({"Float32": x.to_bits()}),
+        Variant::Float64(x) => json!({"Float64": x.to_bits()}),
+        Variant::UDim(u) => json!({"UDim": [u.scale.to_bits(), u.offset]}),
+        Variant::UDim2(u) => json!({"UDim2": [u.x.scale.to_bits(), u.x.offset, u.y.scale.to_bits(), u.y.offset]}),
+        Variant::BrickColor(c) => json!({"BrickColor": *c as u16}),
+        Variant::Color3(c) => json!({"Color3": [fb(c.r), fb(c.g), fb(c.b)]}),
+        Variant::Vector2(c) => json!({"Vector2": [fb(c.x), fb(c.y)]}),
+        Variant::Vector3(c) => json!({"Vector3": [fb(c.x), fb(c.y), fb(c.z)]}),
+        Variant::NumberRange(r) => json!({"NumberRange": [fb(r.min), fb(r.max)]}),
+        Variant::Rect(r) => json!({"Rect": [fb(r.min.x), fb(r.min.y), fb(r.max.x), fb(r.max.y)]}),
+        Variant::CFrame(c) => {
+            let o = &c.orientation;
+            json!({"CFrame": [fb(c.position.x), fb(c.position.y), fb(c.position.z), fb(o.x.x), fb(o.x.y), fb(o.x.z), fb(o.y.x), fb(o.y.y), fb(o.y.z), fb(o.z.x), fb(o.z.y), fb(o.z.z)]})
+        }
+        Variant::EnumItem(e) => json!({"EnumItem": [e.ty.as_bytes().to_vec(), e.value]}),
+        Variant::NumberSequence(s) => json!({"NumberSequence": s.keypoints.iter().map(|k| json!([fb(k.time), fb(k.value), fb(k.envelope)])).collect::<Vec<_>>()}),
+        Variant::ColorSequence(s) => json!({"ColorSequence": s.keypoints.iter().map(|k| json!([fb(k.time), fb(k.color.r), fb(k.color.g), fb(k.color.b)])).collect::<Vec<_>>()}),
+        Variant::Font(x) => json!({"Font": [x.weight.as_u16(), x.style.as_u8(), x.family.as_bytes().to_vec(), x.cached_face_id.as_ref().map(|s| s.as_bytes().to_vec())]}),
+        other => json!({ "Other": format!("{:?}", other) }),
+    }
+}
+
+fn decoded(a: &Attributes) -> Value {
+    Value::Array(a.iter().map(|(k, v)| json!([k.as_bytes().to_vec(), view(v)])).collect())
+}
+
+/// reader following a schedule: each entry is the number of bytes to hand out (0 = return ErrorKind::Interrupted)
+struct Choppy {
+    data: Vec<u8>,
+    pos: usize,
+    schedule: Vec<usize>,
+    step: usize,
+}
+
+impl Read for Choppy {
+    fn read(&mut self, buf: &mut [u8]) -> std::io::Result<usize> {
+        let rem = self.data.len() - self.pos;
+        let mut n = buf.len().min(rem);
+        if n > 0 && self.step < self.schedule.len() {
+            let s = self.schedule[self.step];
+            self.step += 1;
+            if s == 0 {
+                return Err(std::io::Error::from(std::io::ErrorKind::Interrupted));
+            }
+            n = n.min(s);
+        }
+        buf[..n].copy_from_slice(&self.data[self.pos..self.pos + n]);
+        self.pos += n;
+        Ok(n)
+    }
+}
+
+pub fn main(args: &[String]) {
+    match args[0].as_str() {
+        "attr-decode" => {
+            let data = unhex(&args[1]);
+            match Attributes::from_reader(&data[..]) {
+                Ok(a) => println!("{}", json!({"ok": decoded(&a)})),
+                Err(e) => println!("{}", json!({"err": e.to_string()})),
+            }
+        }
+        "attr-decode-choppy" => {
+            let data = unhex(&args[1]);
+            let schedule: Vec<usize> = serde_json::from_str(&args[2]).unwrap();
+            let r = Choppy { data, pos: 0, schedule, step: 0 };
+            match Attributes::from_reader(r) {
+                Ok(a) => println!("{}", json!({"ok": decoded(&a)})),
+                Err(e) => println!("{}", json!({"err": e.to_string()})),
+            }
+        }
+        "attr-roundtrip" => {
+            let sc: Value = serde_json::from_str(&std::fs::read_to_string(&args[1]).unwrap()).unwrap();
+            let mut a = Attributes::new();
+            for e in sc["entries"].as_array().unwrap() {
+                a.insert(string(&e["name"]), build(e["kind"].as_str().unwrap(), &e["v"]));
+            }
+            let mut out = Vec::new();
+            let w = a.to_writer(&mut out);
+            if let Err(e) = w {
+                println!("{}", json!({"write_err": e.to_string()}));
+                return;
+            }
+            match Attributes::from_reader(&out[..]) {
+                Ok(b) => println!("{}", json!({"bytes": hex(&out), "input": decoded(&a), "decoded": decoded(&b)})),
+                Err(e) => println!("{}", json!({"bytes": hex(&out), "input": decoded(&a), "read_err": e.to_string()})),
+            }
+        }
+        "binary-decode" => {
+            let data = unhex(&args[1]);
+            match rbx_binary::from_reader(&data[..]) {
+                Ok(dom) => println!("{}", json!({"ok": dom.descendants().count()})),
+                Err(e) => println!("{}", json!({"err": e.to_string()})),
+            }
+        }
+        other => panic!("replayer bytes: unknown command {}", other),
+    }
 }
